@@ -351,6 +351,34 @@ pub fn run(cx: &mut Cx) {
         }
     }
 
+    // (b4) versions that collide under common fast hash functions (a version
+    // cache that trusts a hash instead of comparing the text): each pair in
+    // both orders and against itself, back to back.
+    if matches!(cx.tier, crate::fw::Tier::Quick | crate::fw::Tier::Thorough) && cx.mine(3) {
+        // four components from a scrambled index (enough variation for the
+        // hashes to behave randomly on the candidates)
+        let make = |i: usize| {
+            let v = crate::rng::Rng::new(i as u64).next();
+            format!("{}.{}.{}nb{}", v % 1000, (v >> 10) % 1000, (v >> 20) % 1000, (v >> 30) % 100)
+        };
+        let found = crate::gen::collide::pairs(6_000_000, 6, &make);
+        cx.ev.add("hash-collisions/pairs", found.len() as u64);
+        for (proj, _, _) in &found {
+            cx.ev.count(&format!("hash-collisions/{proj}"));
+        }
+        for (proj, a, b) in &found {
+            for (x, y) in [(a, b), (b, a), (a, a), (b, b), (a, b)] {
+                cx.check(
+                    || format!("versions colliding under {proj}: A={x:?} B={y:?}"),
+                    |ev| {
+                        ev.count("workload/hash-collisions");
+                        check_pair(ev, &mut cache, &star, x, y)
+                    },
+                );
+            }
+        }
+    }
+
     // (c) corpus: real comparison patterns x real versions.
     if cx.tier != crate::fw::Tier::Mini {
         let pats = corpus::patterns();
